@@ -284,6 +284,10 @@ func (c *Ctx) uEffects(rule, rel string, floor int, idioms map[string]string) {
 			}
 			missing = append(missing, d.String())
 		}
+		for _, al := range aliasRestores(s, de) {
+			c.R.Check(rule, fname(s.fn)+"|alias-restore{"+al+"}", false, c.posOf(s.call),
+				fmt.Sprintf("%s: the change mutates %s in place but its rollback only re-assigns a reference to the same object taken before the change (no copy), which restores nothing", fname(s.fn), al))
+		}
 		sort.Strings(missing)
 		key := fname(s.fn) + "|do{" + strings.Join(de.list(), ",") + "}"
 		if len(missing) == 0 {
@@ -465,4 +469,77 @@ func (c *Ctx) uOrder(rule, rel string, process, rollback *ssa.Function, alias ma
 		}
 	}
 	c.R.Note("%s: %d ordered history pairs with overlapping writes", rule, n)
+}
+
+// aliasRestores lists the fields that the do-closure mutates in place (map insert/delete) while the undo-closure
+// "restores" them by assigning back a reference captured before the change that aliases the very same object.
+func aliasRestores(s appendSite, de effectSet) []string {
+	if s.undo == nil {
+		return nil
+	}
+	// the MakeClosure of undo, to resolve free-variable bindings
+	var mc *ssa.MakeClosure
+	a := s.call.Common().Args
+	if m, ok := ssau.Unwrap(a[len(a)-1]).(*ssa.MakeClosure); ok {
+		mc = m
+	}
+	if mc == nil {
+		return nil
+	}
+	var out []string
+	for _, b := range s.undo.Blocks {
+		for _, in := range b.Instrs {
+			st, ok := in.(*ssa.Store)
+			if !ok {
+				continue
+			}
+			fa, ok := st.Addr.(*ssa.FieldAddr)
+			if !ok || isLocalRoot(st.Addr) {
+				continue
+			}
+			field := ownerField(fa)
+			if !(de[effect{field, "ins"}] || de[effect{field, "del"}]) || de[effect{field, "assign"}] {
+				continue
+			}
+			if _, isMap := fa.Type().Underlying().(*types.Pointer).Elem().Underlying().(*types.Map); !isMap {
+				continue
+			}
+			// value: load of a free variable cell
+			ld, ok := st.Val.(*ssa.UnOp)
+			if !ok || ld.Op != token.MUL {
+				continue
+			}
+			fv, ok := ld.X.(*ssa.FreeVar)
+			if !ok {
+				continue
+			}
+			idx := -1
+			for k, f := range s.undo.FreeVars {
+				if f == fv {
+					idx = k
+				}
+			}
+			if idx < 0 || idx >= len(mc.Bindings) {
+				continue
+			}
+			cell, ok := mc.Bindings[idx].(*ssa.Alloc)
+			if !ok {
+				continue
+			}
+			sts := ssau.StoresInto(cell)
+			if len(sts) != 1 {
+				continue
+			}
+			src, ok := sts[0].Val.(*ssa.UnOp)
+			if !ok || src.Op != token.MUL {
+				continue
+			}
+			sfa, ok := src.X.(*ssa.FieldAddr)
+			if ok && ownerField(sfa) == field {
+				out = append(out, field)
+			}
+		}
+	}
+	sort.Strings(out)
+	return out
 }
